@@ -132,3 +132,10 @@ check(
     "netCDF pairs run through the scipy NETCDF3 backend only (netCDF4 / zarr not installed: NETCDF4, zlib and zarr round trips are not claimed); coordinates are generated on each format's print resolution so that only the documented energy quantisation is lost.",
     "DESIGN.md section 5 C11",
 )
+check(
+    "C13",
+    "independent reference encoders (written from the format descriptions and validated against the vendor samples) produce random well-formed files - shuffled records, several files, header variants - that the library readers must return exactly after the documented unit conversion; direction integrals of reconstructed 2D spectra against the file's E(f)",
+    "Thousands (quick) / tens of thousands (thorough) of generated files over ten formats (TRIAXYS dir/nondir, NDBC realtime/history with 1 or 5 files, Spotter CSV/JSON, Datawell, Obscape, WW3 station, SWAN ASCII variants, XWaves), plus the eight vendor samples re-encoded. Exploration over file contents.",
+    "Encoders are the trusted base (vf/enc/instruments.py); no public description of XWaves' MAT layout is available, so its encoder mirrors the fields the reader documents (date vectors stored as integers); NDBC history r1/r2 scaling is outside what the property states and is not asserted.",
+    "DESIGN.md section 5 C13",
+)
